@@ -597,12 +597,12 @@ func fsmInputs() []fsmIn {
 // ---------------------------------------------------------------- CConc
 
 type concIn struct {
-	Scenario string   `json:"scenario,omitempty"` // "" generated | "stale" | "force-race"
-	Pre      []int32  `json:"pre"`                // control operations that bring the environment to the start state
-	Holder   reqIn    `json:"holder"`
-	Gate     string   `json:"gate"` // trigger whose probe blocks the holder
-	Callers  []reqIn  `json:"callers"`
-	Faults   faults   `json:"faults"`
+	Scenario string  `json:"scenario,omitempty"` // "" generated | "stale" | "force-race"
+	Pre      []int32 `json:"pre"`                // control operations that bring the environment to the start state
+	Holder   reqIn   `json:"holder"`
+	Gate     string  `json:"gate"` // trigger whose probe blocks the holder
+	Callers  []reqIn `json:"callers"`
+	Faults   faults  `json:"faults"`
 }
 
 type thrObs struct {
